@@ -102,7 +102,11 @@ def case_generator(name, opts, dtype, backend):
     tag = f"{name}:{','.join(f'{k}={v}' for k, v in sorted(opts.items()) if k not in ('grid', 'buffers', 'midstep'))}"
     outcomes = 0
     try:
+        other_t = np.float32 if real_t == np.float64 else np.float64
         for shape in shapes_for(name, opts):
+            # construction history: the same generator is first instantiated for the OTHER precision and
+            # a different thread setting (a cache keyed too coarsely would hand that kernel back)
+            registry.instantiate(name, opts, other_t, num_threads=2, shape=shape)
             fn, aux = registry.instantiate(name, opts, real_t, num_threads=False, shape=shape)
             closed = {k: aux[k] for k in sp.get("closed_over", [])}
             for binding in BINDINGS:
